@@ -74,6 +74,10 @@ pub enum UStep {
     /// (select! with a branch that is ready at once); later datagrams must be unaffected
     /// (tokio adaptor only)
     CancelledRead,
+    /// some other socket on the peer's host (another port) sends this datagram to the
+    /// connection's local address: it is not the peer's, so nothing of it may be delivered or
+    /// answered, and later writes still go to the peer
+    Stranger(#[serde(with = "hex")] Vec<u8>),
     /// the application reads while nothing is queued: the socket's (short) read timeout makes
     /// the adaptor's receive fail with a transient error; later datagrams must be unaffected
     /// (blocking adaptor only)
@@ -90,6 +94,11 @@ pub struct UdpSc {
     /// run with a tracing subscriber that enables every span and event
     #[serde(default)]
     pub trace: bool,
+    /// the connection is made by the real `Builder` (`udp(peer, Some(local))`, `connect_*`), which
+    /// binds and connects the socket itself and sends the ISI first; otherwise from a socket
+    /// that the harness has bound and connected
+    #[serde(default)]
+    pub via_builder: bool,
 }
 
 const OP_TIMEOUT: Duration = Duration::from_secs(3);
@@ -103,6 +112,9 @@ enum UEv {
     Idle { res: AppRes },
     /// outcome of a read dropped after one poll: None = it was pending (expected)
     Cancelled { completed: Option<AppRes> },
+    StrangerSent,
+    /// the Builder's connect failed or panicked
+    ConnectFailed { why: String },
     /// a read returned Disconnected for an empty datagram and was repeated
     EmptyDatagramSurfaced,
     Handshook { res: AppRes },
@@ -156,7 +168,9 @@ fn bind_private() -> Option<UdpSocket> {
             n.set((v + 1) % 300);
             v
         });
-        let port = 12_000 + block * 300 + k;
+        // (VERIF_PORT_BASE: lets two instances of the simulator run side by side)
+        let base: u16 = std::env::var("VERIF_PORT_BASE").ok().and_then(|s| s.parse().ok()).unwrap_or(12_000);
+        let port = base + block * 300 + k;
         if let Ok(s) = UdpSocket::bind(("127.0.0.1", port)) {
             return Some(s);
         }
@@ -220,10 +234,32 @@ fn run_udp_inner(sc: &UdpSc) -> UdpRun {
             // queued never wait, so this cannot affect them
             let _ = conn.set_read_timeout(Some(if idle { Duration::from_millis(25) } else { OP_TIMEOUT }));
             let _ = conn.set_write_timeout(Some(OP_TIMEOUT));
-            let mut framed = insim::net::blocking_impl::Framed::new(
-                Box::new(insim::net::blocking_impl::UdpStream::from(conn)),
-                Codec::new(sc.mode.to_mode()),
-            );
+            let mut framed = if sc.via_builder {
+                drop(conn);
+                let b = insim::udp(peer_addr, Some(conn_addr)).mode(sc.mode.to_mode()).verify_version(false);
+                match crate::model::guarded(|| b.connect_blocking()) {
+                    Ok(Ok(f)) => {
+                        // the ISI comes first; it is C18's business
+                        let _ = peer.set_read_timeout(Some(OP_TIMEOUT));
+                        let mut isi = [0u8; 512];
+                        let _ = peer.recv(&mut isi);
+                        f
+                    },
+                    Ok(Err(e)) => {
+                        events.push(UEv::ConnectFailed { why: format!("{:?}", e) });
+                        return UdpRun { events, harness_error: None };
+                    },
+                    Err(p) => {
+                        events.push(UEv::ConnectFailed { why: format!("panic: {}", p) });
+                        return UdpRun { events, harness_error: None };
+                    },
+                }
+            } else {
+                insim::net::blocking_impl::Framed::new(
+                    Box::new(insim::net::blocking_impl::UdpStream::from(conn)),
+                    Codec::new(sc.mode.to_mode()),
+                )
+            };
             for st in &sc.steps {
                 match st {
                     UStep::Burst(ds) => {
@@ -319,6 +355,12 @@ fn run_udp_inner(sc: &UdpSc) -> UdpRun {
                         events.push(UEv::Bounced { lost: lost_res, after: results, pre, down, tail });
                     },
                     UStep::CancelledRead => {},
+                    UStep::Stranger(d) => {
+                        if let Some(s) = bind_private() {
+                            let _ = s.send_to(d, conn_addr);
+                            events.push(UEv::StrangerSent);
+                        }
+                    },
                     UStep::Abandon { dgram } => {
                         if peer.send(dgram).is_err() {
                             return UdpRun { events, harness_error: Some("peer send".into()) };
@@ -394,12 +436,29 @@ fn run_udp_inner(sc: &UdpSc) -> UdpRun {
             let rt = tokio::runtime::Builder::new_current_thread().enable_all().build().unwrap();
             crate::model::enter_guard();
             let r: Result<Result<(), String>, Box<dyn std::any::Any + Send>> = std::panic::catch_unwind(std::panic::AssertUnwindSafe(|| rt.block_on(async {
-                conn.set_nonblocking(true).map_err(|e| e.to_string())?;
-                let sock = tokio::net::UdpSocket::from_std(conn).map_err(|e| e.to_string())?;
-                let mut framed = insim::net::tokio_impl::Framed::new(
-                    Box::new(insim::net::tokio_impl::UdpStream::from(sock)),
-                    Codec::new(sc.mode.to_mode()),
-                );
+                let mut framed = if sc.via_builder {
+                    drop(conn);
+                    let b = insim::udp(peer_addr, Some(conn_addr)).mode(sc.mode.to_mode()).verify_version(false);
+                    match b.connect_async().await {
+                        Ok(f) => {
+                            let _ = peer.set_read_timeout(Some(OP_TIMEOUT));
+                            let mut isi = [0u8; 512];
+                            let _ = peer.recv(&mut isi);
+                            f
+                        },
+                        Err(e) => {
+                            events.push(UEv::ConnectFailed { why: format!("{:?}", e) });
+                            return Ok(());
+                        },
+                    }
+                } else {
+                    conn.set_nonblocking(true).map_err(|e| e.to_string())?;
+                    let sock = tokio::net::UdpSocket::from_std(conn).map_err(|e| e.to_string())?;
+                    insim::net::tokio_impl::Framed::new(
+                        Box::new(insim::net::tokio_impl::UdpStream::from(sock)),
+                        Codec::new(sc.mode.to_mode()),
+                    )
+                };
                 for st in &sc.steps {
                     match st {
                         UStep::Burst(ds) => {
@@ -532,6 +591,12 @@ fn run_udp_inner(sc: &UdpSc) -> UdpRun {
                             events.push(UEv::Read { res });
                             break;
                         },
+                        UStep::Stranger(d) => {
+                            if let Some(s) = bind_private() {
+                                let _ = s.send_to(d, conn_addr);
+                                events.push(UEv::StrangerSent);
+                            }
+                        },
                         UStep::CancelledRead => {
                             let completed = match tokio::time::timeout(Duration::ZERO, framed.read()).await {
                                 Err(_) => None,
@@ -651,6 +716,9 @@ impl Prop for C08 {
         let bounces = rng.chance(1, 3);
         let empties = rng.chance(1, 3);
         let cancels = rng.chance(1, 2);
+        let strangers = rng.chance(1, 3);
+        // (the Builder gives the blocking socket a 90 s read timeout: no idle reads there)
+        let via_builder = rng.chance(1, 4) && !(imp == Imp::Blocking && idle_reads);
         let mut steps = Vec::new();
         let mut sent = 0usize;
         let mut notes = Vec::new();
@@ -717,6 +785,13 @@ impl Prop for C08 {
             if imp == Imp::Tokio && cancels && rng.chance(1, 6) {
                 steps.push(UStep::CancelledRead);
             }
+            if strangers && rng.chance(1, 8) {
+                let mut d = gen::tiny(mode, 0x63, 3);
+                if rng.chance(1, 3) {
+                    d.extend_from_slice(&gen::keepalive(mode));
+                }
+                steps.push(UStep::Stranger(d));
+            }
             if rng.chance(1, 50) {
                 // several non-keep-alive frames in one datagram, a handshake after the first
                 let nomix = FrameMix { keepalive: 0, ver: 0, ..mix.clone() };
@@ -774,6 +849,7 @@ impl Prop for C08 {
             steps,
             note: notes.join(","),
             trace: rng.chance(1, 8),
+            via_builder,
         }
     }
 
@@ -786,8 +862,36 @@ impl Prop for C08 {
             let _ = e;
             return rep;
         }
-        let tag = format!("[{:?}/{:?}]", sc.imp, sc.mode);
+        let tag = format!("[{:?}/{:?}{}]", sc.imp, sc.mode, if sc.via_builder { "/via Builder" } else { "" });
         let pong = hex::enc(&sc.mode.pong());
+        if sc.via_builder {
+            rep.probe("connection_made_by_builder");
+        }
+        // whatever the peer receives from the connection — a written packet, a reply, an ISI — is
+        // one datagram holding exactly one frame: its length is what its size byte announces
+        for e in &run.events {
+            let ds: Vec<&String> = match e {
+                UEv::PeerGot { dgram } => vec![dgram],
+                _ => vec![],
+            };
+            for d in ds {
+                if let Ok(b) = hex::dec(d) {
+                    if !b.is_empty() && sc.mode.announced(b[0]) != b.len() {
+                        rep.violations.push(v(
+                            "udp.datagram_not_one_frame",
+                            format!("{} the peer received a datagram of {} bytes whose size byte announces {}: {}", tag, b.len(), sc.mode.announced(b[0]), d.chars().take(80).collect::<String>()),
+                        ));
+                        rep.trace_hash = 2;
+                        return rep;
+                    }
+                }
+            }
+        }
+        if let Some(UEv::ConnectFailed { why }) = run.events.first() {
+            rep.violations.push(v("udp.connect_failed", format!("{} Builder::udp(peer, Some(local)).connect failed against a bound loopback peer: {}", tag, why)));
+            rep.trace_hash = 1;
+            return rep;
+        }
         // expected sequence
         let mut expected_reads: Vec<String> = Vec::new();
         let mut h = Fnv::default();
@@ -982,6 +1086,12 @@ impl Prop for C08 {
                             rep.violations.push(v("udp.unsolicited_datagram", format!("{} the peer received {} during a read", tag, dgram)));
                             break 'steps;
                         }
+                    }
+                },
+                UStep::Stranger(_) => {
+                    if let Some(UEv::StrangerSent) = evs.get(ev_i) {
+                        ev_i += 1;
+                        rep.fault("datagram_from_another_address");
                     }
                 },
                 UStep::CancelledRead => {
@@ -1247,6 +1357,7 @@ impl Prop for C08 {
                     steps: vec![UStep::Burst(vec![mode.pong().to_vec()])],
                     note: "prelude".into(),
                     trace: false,
+                    via_builder: false,
                 });
                 let mut d = gen::tiny(mode, 0x51, 3);
                 d.extend_from_slice(&gen::tiny(mode, 0x52, 3));
@@ -1257,6 +1368,7 @@ impl Prop for C08 {
                     steps: vec![UStep::Abandon { dgram: d }],
                     note: "prelude".into(),
                     trace: false,
+                    via_builder: false,
                 });
             }
         }
